@@ -183,6 +183,15 @@ def t_sleep(d=1000.0, v='slept'):
     return v
 
 
+def t_linger(d=1000.0, v='returned-but-lingering'):
+    """returns at once but leaves a non-daemon thread behind: the result is delivered while the child process lives on"""
+    from simos.sync import Thread
+    truth('target-enter', fn='t_linger')
+    Thread(target=time.sleep, args=(d,), name='lingering').start()
+    truth('target-leave', how='return')
+    return v
+
+
 def t_pyloop(n=60, v='pyloop-done'):
     """pure python computation (no system call) so that the asynchronous exception lands inside the target"""
     truth('target-enter', fn='t_pyloop')
@@ -308,6 +317,7 @@ def t_sigstop():
 
 TARGETS['t_gilhold'] = t_gilhold
 TARGETS['t_sigstop'] = t_sigstop
+TARGETS['t_linger'] = t_linger
 
 
 def p_mut_echo(*args, **kwargs):
